@@ -163,6 +163,20 @@ fn run01(ctx: &Ctx) {
         let v = check01(&mut runner.borrow_mut(), &mut case, if frozen { None } else { Some(&mut st) });
         (v, if want_case { case.to_json() } else { Value::Null })
     });
+    // call graphs: nesting up to the limit, stack traffic in every frame, with and without a
+    // stack-usage calculator (the generator of C07)
+    let cases = ctx.share(ctx.tier.pick(48_000, 960_000));
+    ctx.shrink_iters.set(2000);
+    ctx.search("callgraph", "exec", cases, super::c07::cprog(), |p, want_case| {
+        let mut case = super::c07::lower(p);
+        let mut st = ctx.stats();
+        let frozen = st.is_frozen() || want_case;
+        if !frozen {
+            st.class("call-graph-stream");
+        }
+        let v = check01(&mut runner.borrow_mut(), &mut case, if frozen { None } else { Some(&mut st) });
+        (v, if want_case { case.to_json() } else { Value::Null })
+    });
     // every opcode x every register pair x boundary operands, one instruction per test
     if super::matrix::run(ctx, &runner, ctx.tier.pick(4, 16) as usize, 1, &|r, c| check01(r, c, None)) {
         return;
